@@ -256,6 +256,7 @@ func Random(rng *rand.Rand, cfg Config) *Node {
 			}
 		})
 	}
+	AvoidKnownFindings(root)
 	root.Walk(func(n *Node) {
 		if (n.Kind == KRef || n.Kind == KCondRef) && n.Group < 0 {
 			target := caps[-1-n.Group]
@@ -266,4 +267,49 @@ func Random(rng *rand.Rand, cfg Config) *Node {
 		}
 	})
 	return root
+}
+
+// AvoidKnownFindings rewrites the one shape behind the carried finding KF2 (known_findings.json):
+// a loop with a positive minimum over a non-word literal or over \W / \D / [^\w] / [^\d] that the
+// engine makes atomic in front of \B. If the pattern has such a loop, every \B becomes \b.
+func AvoidKnownFindings(root *Node) {
+	risky := false
+	root.Walk(func(n *Node) {
+		if n.Kind != KQuant || n.Lo == 0 {
+			return
+		}
+		b := n.Subs[0]
+		for b.Kind == KGroup || b.Kind == KCap || b.Kind == KAtomic {
+			b = b.Subs[0]
+		}
+		switch b.Kind {
+		case KLit:
+			if !NamedMember(NWordU, b.Ch) {
+				risky = true
+			}
+		case KShort:
+			if b.Short == 'W' || b.Short == 'D' {
+				risky = true
+			}
+		case KClass:
+			c := b.Class
+			if c.Sub == nil && len(c.Items) == 1 && c.Items[0].Short != 0 {
+				sh := c.Items[0].Short
+				if (!c.Neg && (sh == 'W' || sh == 'D')) || (c.Neg && (sh == 'w' || sh == 'd')) {
+					risky = true
+				}
+			}
+			if c.Sub == nil && len(c.Items) == 1 && c.Items[0].Short == 0 && c.Items[0].Lo == c.Items[0].Hi && !c.Neg && !NamedMember(NWordU, c.Items[0].Lo) {
+				risky = true // singleton class reduces to a literal
+			}
+		}
+	})
+	if !risky {
+		return
+	}
+	root.Walk(func(n *Node) {
+		if n.Kind == KAnchor && n.Anchor == "B" {
+			n.Anchor = "b"
+		}
+	})
 }
